@@ -882,14 +882,14 @@ def run(rep, tier, seed):
     # histories three edits deep around a height change (edit above the block ; setHeight ; edit above it again): what a value
     # cached above the block across the geometry change would break
     names, _ = replay_config(rep, "Inventory_core_geom_emit%s.cfg" % ("_thorough" if thorough else ""), env, fams, "height-change-histories",
-                             seed=seed, dt=False, max_edges=(12000 if thorough else 800), narrow=not thorough)
+                             seed=seed, dt=False, max_edges=(5000 if thorough else 800), narrow=True)
     seen |= names
     if thorough:
         for fam in fams:  # every family on every edge of the two deep emissions
             replay_config(rep, "Inventory_blk_emit_thorough.cfg", env, [fam], "block-tree-2-edits:" + fam, seed=seed, dt=(fam == "circle"),
-                          weight_free_too=(fam == "hot"), max_edges=(None if fam == "circle" else 4000))
-        replay_config(rep, "Inventory_core_emit_thorough.cfg", env, fams, "third-core-tree-2-edits", seed=seed, dt=False, max_edges=8000)
-        replay_config(rep, "Inventory_gap_emit_thorough.cfg", env, ["gap"], "closed-gap-block-2-edits", seed=seed, dt=False, max_edges=6000)
+                          weight_free_too=(fam == "hot"), max_edges=(6000 if fam == "circle" else 2500))
+        replay_config(rep, "Inventory_core_emit_thorough.cfg", env, fams, "third-core-tree-2-edits", seed=seed, dt=False, max_edges=5000)
+        replay_config(rep, "Inventory_gap_emit_thorough.cfg", env, ["gap"], "closed-gap-block-2-edits", seed=seed, dt=False, max_edges=4000)
     need = {"SetN", "SetN!", "UpdateN", "SetNs", "Scale", "Clear", "AddMass", "AddMass!", "RemoveMass", "SetMass", "SetMass!",
             "SetMassFracs", "SetMassFracs!", "AddMasses", "AddMasses!", "SetMasses", "SetMasses!", "SetHeight", "SetHeight!",
             "AdjustDensity", "AdjustEnrich", "AdjustMF", "AdjustMF!"}
